@@ -751,11 +751,22 @@ def k4(ck: Check) -> None:
     fm = ck.prog.fm(CAND_MOD, "run_simulation_minification")
     f = fm.f
     # the two branches: `if not avoid_bdd.is_false():` ... else ...
-    top = [s for s in f.node.body if isinstance(s, ast.If) and "is_false" in text(s.test)]
+    def _split_test(s_):
+        """the test of the split, with a Boolean local (`nothing_to_avoid = avoid_bdd.is_false()`) read through"""
+        t_, neg = s_.test, False
+        while isinstance(t_, ast.UnaryOp) and isinstance(t_.op, ast.Not):
+            t_, neg = t_.operand, not neg
+        if isinstance(t_, ast.Name):
+            d_ = fm.deref(t_, fm.cfgn(s_.test))
+            while isinstance(d_, ast.UnaryOp) and isinstance(d_.op, ast.Not):
+                d_, neg = d_.operand, not neg
+            t_ = d_
+        return t_, neg
+    top = [s for s in f.node.body if isinstance(s, ast.If) and _split_test(s)[0] is not None and "is_false" in text(_split_test(s)[0])]
     if len(top) != 1:
         raise AnalysisError("anchor vanished: avoid/no-avoid split of run_simulation_minification")
     br = top[0]
-    pol_avoid = isinstance(br.test, ast.UnaryOp)
+    pol_avoid = _split_test(br)[1]
     body_, orelse_ = br.body, br.orelse
     rest_ = f.node.body[f.node.body.index(br) + 1:]
     if not orelse_ and body_ and isinstance(body_[-1], (ast.Return, ast.Raise)):
@@ -930,10 +941,19 @@ def k4(ck: Check) -> None:
             want = logic.Or(*[logic.B(t) for t in ats if t in (f"T:{cb2}({SIM2})", f"T:{newb}({SIM2})")]) if ats else logic.FALSE
             if not logic.implies(pc, want):
                 probs.append(f"line {dnode.lineno}: a state is dropped without having reached another remaining or new candidate")
-        adds = [s for s in inner.body if isinstance(s, ast.Assign) and isinstance(s.targets[0], ast.Name) and s.targets[0].id == newb
+        adds = [s for s in ast.walk(inner) if isinstance(s, ast.Assign) and isinstance(s.targets[0], ast.Name) and s.targets[0].id == newb
                 and isinstance(s.value, ast.Call) and callee_name(s.value) == "l_or"]
         if not adds:
             probs.append("advanced states are not collected into the new set")
+        elif any(a_ not in inner.body for a_ in adds):
+            # the collection is conditional (`if not (reached another): new = new | state`): every way around it has seen the
+            # walk reach a remaining or a new candidate
+            SIM3 = next((text(c_.args[0]) for c_ in ast.walk(inner) if isinstance(c_, ast.Call) and isinstance(c_.func, ast.Name)
+                         and c_.func.id in (cb2, newb) and len(c_.args) == 1), "simulation")
+            hit2 = logic.Or(logic.B(f"T:{cb2}({SIM3})"), logic.B(f"T:{newb}({SIM3})"))
+            why2 = paths_imply(fm, _tbranch(fm, inner), fm.cfg.loop_header[inner], hit2, tr, stop={fm.cfgn(a_).id for a_ in adds})
+            if why2 is not None:
+                probs.append(f"a state is dropped without having reached another remaining or new candidate: {why2}")
         sw = [s for s in outer.body if isinstance(s, ast.Assign) and isinstance(s.targets[0], ast.Name) and s.targets[0].id == cb2
               and text(s.value) == newb]
         if not sw:
